@@ -87,6 +87,9 @@ def spec_check(ex, g):
             return out + [("index_range", "face %d row %s n_node %d" % (f, r, n_node))]
     if np.isnan(lon).any() or np.isnan(lat).any():
         return out + [("coord_nan", "")]
+    for nm, arr in (("node_lon", lon), ("node_lat", lat)):
+        if nm in g._ds and not np.array_equal(np.asarray(g._ds[nm].values, dtype=float), arr):
+            out.append(("ds_vs_property", "%s differs between Grid._ds and the property" % nm))
     if lon.min() < -180.0 or lon.max() > 180.0:
         out.append(("lon_range", "[%r, %r]" % (float(lon.min()), float(lon.max()))))
     if lat.min() < -90.0 or lat.max() > 90.0:
@@ -141,6 +144,19 @@ def _aux_one(k, want, g):
         for i, w in enumerate(want):
             if not pos_close((float(glon[i]), float(glat[i])), w):
                 return "aux_coords", "%s[%d]=%r source %r" % (a, i, (float(glon[i]), float(glat[i])), w)
+    elif k in ("node_xyz", "face_xyz", "edge_xyz"):
+        pre = k.split("_")[0]
+        if any(pre + "_" + ax not in ds for ax in "xyz"):
+            return "aux_missing", pre + "_x"
+        got = np.array([np.asarray(ds[pre + "_" + ax].values, dtype=float) for ax in "xyz"]).T
+        w = np.asarray(want, dtype=float)
+        if got.shape != w.shape:
+            return "aux_shape", "%s_xyz shape %s source %s" % (pre, got.shape, w.shape)
+        gn = got / np.linalg.norm(got, axis=1)[:, None]
+        wn = w / np.linalg.norm(w, axis=1)[:, None]
+        bad = np.where(np.abs(gn - wn).max(axis=1) > 1e-11)[0]
+        if len(bad):
+            return "aux_xyz", "%s_xyz[%d] = %s, source %s" % (pre, bad[0], got[bad[0]].tolist(), w[bad[0]].tolist())
     elif k == "areas":
         if "face_areas" not in ds:
             return "aux_missing", "face_areas"
@@ -246,6 +262,47 @@ def _build_case(c, rng):
         ext = ".geojson" if d["kind"] == "geojson" else ".shp"
         return S.build_geo(am, d, rng, os.path.join(SCR, "g%d%s" % (c.get("idx", 0), ext)))
     raise ValueError(fmt)
+
+
+# ---------------------------------------------------------------------------------------------
+# access histories: the clauses must hold whatever is read first, and supplied variables must survive
+# the derivation of everything else
+
+ORDERS = {
+    0: ["node_lon", "node_lat"],
+    1: ["node_lat", "node_lon"],
+    2: ["face_lat", "face_lon", "edge_lat", "edge_lon", "node_lat", "node_lon"],
+    3: ["n_edge", "edge_node_connectivity", "face_edge_connectivity", "node_face_connectivity", "face_face_connectivity",
+        "n_nodes_per_face", "node_lat", "node_lon"],
+    4: ["node_z", "node_y", "node_x", "face_x", "edge_x", "node_lat", "node_lon"],
+    5: ["face_node_connectivity", "n_max_face_nodes", "node_z", "node_lat", "face_lat", "node_lon"],
+}
+
+DERIVED = ["face_jacobian", "face_areas", "n_nodes_per_face", "n_edge", "edge_node_connectivity", "face_edge_connectivity",
+           "edge_face_connectivity", "node_face_connectivity", "face_face_connectivity", "node_edge_connectivity",
+           "node_lon", "node_lat", "node_x", "node_y", "node_z", "face_lon", "face_lat", "face_x", "face_y", "face_z",
+           "edge_lon", "edge_lat", "edge_x", "edge_y", "edge_z", "edge_node_distances", "edge_face_distances",
+           "hole_edge_indices", "antimeridian_face_indices", "face_jacobian"]
+
+
+def touch(g, names):
+    """read attributes in the given order; failures of derived quantities are other properties' business"""
+    for nm in names:
+        try:
+            v = getattr(g, nm)
+            if hasattr(v, "values"):
+                v.values
+        except Exception:
+            pass
+
+
+def derive_all(g, rng_key):
+    names = list(DERIVED)
+    if g.n_face <= 12 and rng_key % 4 == 0:
+        names.append("bounds")
+    if rng_key % 2:
+        names.reverse()
+    touch(g, names)
 
 
 # ---------------------------------------------------------------------------------------------
@@ -474,6 +531,22 @@ def sweep_cases(rng, tier):
             for cont in ("ndarray", "list", "tuple"):
                 for entry in ("from_face_vertices", "open_grid"):
                     out.append(_mk("fv", S.fv_dialect(rng, am, force={"coords": coords, "container": cont, "entry": entry}), am, "sweep"))
+    # Cartesian face vertices (lon/lat derived lazily) under every access order, corners at negative longitudes
+    for am in (by["tetra"], by["cube"], by["polar-fan"], by["quad+tri"]):
+        for o in range(len(ORDERS)):
+            for entry in ("from_face_vertices", "open_grid"):
+                c = _mk("fv", S.fv_dialect(rng, am, force={"coords": "xyz", "container": "ndarray", "entry": entry}), am, "sweep")
+                c["order"] = o
+                out.append(c)
+    # MPAS with supplied areas / centres / distances under every access order
+    for am in (by["cube"], by["quad+tri"]):
+        for o in range(len(ORDERS)):
+            for dual in (False, True):
+                if dual and not am.closed:
+                    continue
+                c = _mk("mpas", S.mpas_dialect(rng, am, force={"dual": dual, "opt": True, "xyz": True}), am, "sweep")
+                c["order"] = o
+                out.append(c)
     # GEOS-CS
     for nf in (1, 2, 6):
         for ny in (2, 3, 4):
@@ -524,7 +597,7 @@ def gen_cases(ck):
             c["kind"] = "corpus"
             cases.append(c)
     cases += sweep_cases(rng, ck.tier)
-    n_rand = 3000 if ck.tier == "quick" else 30000
+    n_rand = 2400 if ck.tier == "quick" else 24000
     for i in range(n_rand):
         cases.append(random_case(rng, big=(ck.tier == "thorough" and i % 40 == 0)))
     if ck.tier == "thorough":
@@ -822,6 +895,8 @@ def run_case(ck, c, stats, collect):
     fl = input_flags(c, ex, image)
     case = {"fmt": fmt, "dialect": d, "mesh": c.get("mesh"), "seed": seed, "idx": c.get("idx", 0),
             "via_file": bool(c.get("via_file"))}
+    if "order" in c:
+        case["order"] = c["order"]
     if path:
         stats["via_file"] = stats.get("via_file", 0) + 1
         collect = None                       # the model is tied on the in-memory image; files add the I/O layer
@@ -835,10 +910,27 @@ def run_case(ck, c, stats, collect):
             warnings.simplefilter("ignore")
             g = run_impl(fmt, src, d, path)
             fp1 = fingerprint(g)
+            order = c.get("order", c.get("idx", 0) % len(ORDERS))
+            case["order"] = order
+            touch(g, ORDERS[order])          # which attribute is read first is part of the quantifier
             fails = spec_check(ex, g)
-            if not any(cl in ("shape", "n_face", "n_node") for cl, _ in fails):
+            structural = any(cl in ("shape", "n_face", "n_node") for cl, _ in fails)
+            seen = {cl for cl, _ in fails}
+            if not structural:
                 for cl, det, k in aux_check(ex, g):
                     fails.append((cl, "%s: %s" % (k, det)))
+                    seen.add(("aux", k))
+                # everything else the grid can derive is read, then the clauses and every supplied variable are
+                # compared with the source again: only failures that were not there before are reported here
+                if c.get("kind") != "random" or seed % 5 == 0 or (fmt == "mpas" and seed % 2 == 0):
+                    derive_all(g, seed)
+                    stats["derived_all"] = stats.get("derived_all", 0) + 1
+                    for cl, det in spec_check(ex, g):
+                        if cl not in seen:
+                            fails.append(("after_reads_" + cl, det))
+                    for cl, det, k in aux_check(ex, g):
+                        if ("aux", k) not in seen:        # items already wrong before are not reported twice
+                            fails.append(("after_reads_" + cl, "%s: %s" % (k, det)))
     except Exception as e:
         import traceback
         fails.append(("raises", repr(e)[:300] + " @ " + traceback.format_exc()[-400:]))
@@ -964,11 +1056,14 @@ def main(ck):
         "model_comparisons": n_cmp, "extraction_audit_cases": audit_n,
         "sources_opened_again (same object, same result, source untouched; MPAS also primal<->dual)": stats.get("reopened", 0),
         "cases_through_netcdf_file": stats.get("via_file", 0), "file_write_skipped": stats.get("file_write_skipped", 0),
-        "tolerance_deg": TOL,
+        "grids_with_everything_derived_then_rechecked": stats.get("derived_all", 0),
+        "tolerance_deg": TOL, "access_orders": {str(k): v for k, v in ORDERS.items()},
         "clauses_checked_on_impl": ["n_face", "dtype", "padding_trailing", "index_range", "lon_range", "lat_range",
                                     "face_size", "face_corners (cyclic order, rotation free)", "n_node", "aux_rows",
                                     "aux_index_range", "aux_coords", "aux_lon_range", "aux_areas", "aux_npf", "aux_dims",
-                                    "aux_missing", "aux_distances", "raises", "second_open_differs", "second_open_raises",
+                                    "aux_missing", "aux_distances", "aux_xyz", "ds_vs_property", "raises",
+                                    "after_reads_<clause> (every clause again after all derivable attributes were read)",
+                                    "second_open_differs", "second_open_raises",
                                     "other_mode_<clause> (MPAS primal after dual / dual after primal on one dataset)",
                                     "source_mutated"],
         "partial": "geopandas/shapely/pyogrio/netCDF/xarray I/O layers are external (oracle); float conversion "
